@@ -85,6 +85,14 @@ PROPS = {
         design_ref="DESIGN.md section 4, C05",
         level_text="Per-function claim over an explicit list (evidence.coverage.functions_under_contract): every extracted function is verified by Verus to be free of panics (assert!/unreachable!/unwrap/expect/indexing), arithmetic overflow and failed debug assertions for ALL inputs satisfying its stated type invariants, and its Ok results satisfy the range stated in its postcondition; the ranged-integer wrappers in the Kani groups are checked bit-precisely for panics and for Ok values inside the type's range. Entry points not on the list are not covered.",
     ),
+    "C20": dict(
+        title="TimeZone handles are memory-safe values under clone, drop, compare and sharing",
+        verus=["tzrepr"],
+        kani_quick=[], kani_thorough=[],
+        design_ref="DESIGN.md section 4, C20",
+        level_text="Narrow claim: the pointer-free kinds of the tagged-pointer representation (UTC, unknown, fixed offset): for every offset in -93599..=93599 s the encode/decode pair Repr::fixed / Repr::get_fixed is the identity (sign-extending shift included) and the tag bits identify the kind; tags are pairwise distinct. Arc-backed kinds (clone/drop/refcount), multi-threaded sharing and leak freedom are NOT decided by this check (DESIGN.md section 4, C20).",
+        level_note="Trusted: the strict-provenance pair addr(without_provenance(a)) == a (pointer model in the prelude), i32::checked_shl spec, Verus/Z3 bit-vector reasoning; plus the global trusted base.",
+    ),
 }
 
 NOT_APPLICABLE = {
@@ -94,4 +102,4 @@ NOT_APPLICABLE = {
 
 # properties with a design but no committed check yet (kept current as the build proceeds)
 NOT_YET = {p: "check not built yet in this session (design in DESIGN.md section 4); not claimed" for p in
-           ["C07", "C08", "C09", "C11", "C16", "C17", "C20"]}
+           ["C07", "C08", "C09", "C11", "C16", "C17"]}
